@@ -6,6 +6,9 @@ CONSTANTS Src = {"s"}
           Gated = {}
           MaxH = 0
           EmitOn = "edge"
+          GovChains = {"s","t","w"}
+          RelayOn = FALSE
+          Silent = {"v","r"}
 VIEW View
 INVARIANT TypeOK
 PROPERTY PropC20 PropC21 PropC22
